@@ -1538,6 +1538,11 @@ def n_default(ex, callee, a, env):
         return n_deque_new(ex, 'Deque::<' + ty[6:-1] + '>::new', a, env)
     if pt[0] == 'Vec':
         return HVec(int(type_str(pt[1][-1])))
+    if ex.impl_index is None:
+        ex.build_impl_index()
+    for f in ex.impl_index.get('default', []):      # a derived / written impl in the loaded crates
+        if not f.params and norm_type(f.ret) == ty:
+            return ex.call_fn(f, [], None)
     raise Unsupported('Default for ' + ty)
 
 
